@@ -20,6 +20,28 @@ SOURCES = [
     ("tryexc", "def g(x):\n    try:\n        with open(x) as fh:\n            for line in fh:\n                yield line\n    except (IOError, ValueError) as e:\n        raise RuntimeError(e)\n    finally:\n        x = None\n"),
     ("shared", "def h():\n    a = ('shared', 'tuple', 1.25)\n    b = ('shared', 'tuple', 1.25)\n    c = 'shared'\n    return a, b, c, 'shared', 1.25\n"),
 ]
+SOURCES += [
+    ("subscr", "def def_op(name, op):\n    opname[op] = name\n    opmap[name] = op\n\ndef g(a, i, j):\n    a[i] = a[j]\n    a[i:j] = a[j:i]\n    a[i] += 1\n    del a[j]\n    return a[i][j], a[::2], a[i:j:2]\n"),
+    ("exprs", "def e(a, b, c, *r, **k):\n    x = a + b * c - (a // b) % c ** 2\n    y = (a < b < c) and not (a == b or b != c) or a is b or a is not c or a in r or b not in k\n"
+              "    z = a if b else c\n    w = [a, b, *r] if r else (a, b)\n    d = {'\\n': a, 'k': b, 1: c}\n    s = {a, b}\n    f = lambda q, p=1: q + p\n    x += 1; y |= 2; z <<= 3\n"
+              "    return f(a, p=b), e(*r, **k), -a, ~b, +c, (x, y, z, w, d, s)\n" if V >= (3, 5) else
+              "def e(a, b, c, *r, **k):\n    x = a + b * c - (a // b) % c ** 2\n    y = (a < b < c) and not (a == b or b != c) or a is b or a is not c or a in r or b not in k\n"
+              "    z = a if b else c\n    d = {'\\n': a, 'k': b, 1: c}\n    f = lambda q, p=1: q + p\n    x += 1; y |= 2; z <<= 3\n"
+              "    return f(a, p=b), e(*r, **k), -a, ~b, +c, (x, y, z, d)\n"),
+    ("flow", "import os, sys as system\nfrom os import path as p, sep\nfrom . import sibling\nG = 0\ndef fl(n):\n    global G\n    i = 0\n    while i < n:\n        i += 1\n        if i % 2:\n            continue\n"
+             "        if i > 10:\n            break\n    else:\n        G = i\n    for a, (b, c) in []:\n        pass\n    assert n, 'msg'\n    try:\n        n = 1 // n\n    except ZeroDivisionError:\n        pass\n"
+             "    except Exception as ex:\n        raise\n    else:\n        n = 2\n    finally:\n        del i\n    return [q for q in range(n) if q], {q: q for q in range(n)}, {q for q in range(n)}, (q for q in range(n))\n"),
+    ("deco", "def dec(f):\n    return f\n@dec\nclass C(object):\n    a = 1\n    @staticmethod\n    def s(x=1, *y, **z):\n        return x\n    @property\n    def p(self):\n        return self.a\n"
+             "    def m(self):\n        return super(C, self).__init__()\n"),
+]
+if V >= (3, 6):
+    SOURCES.append(("fstr", "def fs(a, b):\n    v: int = 3\n    return f'{a!r:>{b}} and {a + b:.2f} {v}' + f'{a}'\n"))
+if V >= (3, 10):
+    SOURCES.append(("match", "def mt(c):\n    match c:\n        case [x, y, *rest]:\n            return x\n        case {'k': v, **kw}:\n            return v\n        case str() | int(real=1):\n            return c\n        case _:\n            return None\n"))
+if V >= (3, 11):
+    SOURCES.append(("excgroup", "def eg():\n    try:\n        pass\n    except* ValueError as e:\n        raise\n"))
+if V >= (3, 12):
+    SOURCES.append(("generic", "type A[T] = list[T]\ndef gen[T](x: T) -> T:\n    return x\nclass K[T]:\n    pass\n"))
 if V >= (3, 5):
     SOURCES.append(("async", "async def co(a):\n    async with a as b:\n        async for c in b:\n            await c\n"))
 if V >= (3, 8):
